@@ -377,14 +377,24 @@ def _same(ctx, what, r1, r2, op, be, variant):
         ctx.fail(f"operator_type:{type(r1).__name__}/{type(r2).__name__}", f"{what}: operator gives {type(r1).__name__}, "
                  f"method gives {type(r2).__name__}", op=op, variant=variant, backend=be)
         return False
+    def near(x, y, scale):
+        # the two spellings may reach the same kernel with a scalar on one path and a one-element array on the other; NumPy's
+        # scalar and SIMD loops of sinh / cos / ... differ in the last bits, so values are compared at 1e-12 of the row's scale
+        if isinstance(x, (bool, numpy.bool_)) or isinstance(y, (bool, numpy.bool_)):
+            return bool(x) == bool(y)
+        if x is None or y is None:
+            return x is None and y is None
+        return (x == y) or (x != x and y != y) or abs(x - y) <= 1e-12 * scale
+
     if k1 in ("object", "numpy", "awkward-array", "awkward-record"):
         s1, rows1 = lattice.read_vector_rows(r1)
         s2, rows2 = lattice.read_vector_rows(r2)
         ok = s1 == s2 and len(rows1) == len(rows2) and all(
-            all((x == y) or (x != x and y != y) for x, y in zip(a, b)) for a, b in zip(rows1, rows2))
+            all(near(x, y, max([abs(float(u)) for u in a if u is not None and u == u] + [1e-300])) for x, y in zip(a, b))
+            for a, b in zip(rows1, rows2))
     else:
         v1, v2 = build.flat_values(r1), build.flat_values(r2)
-        ok = len(v1) == len(v2) and all((x == y) or (x != x and y != y) for x, y in zip(v1, v2))
+        ok = len(v1) == len(v2) and all(near(x, y, max(abs(x), abs(y)) if not isinstance(x, (bool, numpy.bool_)) and x is not None and y is not None else 1) for x, y in zip(v1, v2))
     if not ok:
         ctx.fail("operator", f"{what}: operator and method give different values", op=op, variant=variant, backend=be)
     return ok
